@@ -43,6 +43,7 @@ struct Info {
     bool detectable = false;           // contains an axis-parallel rectangle or a trapezoid with two parallel axis-aligned sides or a right isosceles triangle (own classification)
     bool circle_candidate = false;     // contains a polygon with > 4 vertices built as a circle
     bool many_vertices = false;        // contains a polygon with > 4 vertices (circle tolerance can matter)
+    bool circle_family = false;        // member of the circle / near-circle / partial-disc families (run with circle tolerances 1e-3 and 1e-2)
     bool has_repetition = false;       // some element carries a repetition with > 1 copies
     bool multi_value_props = false;    // some property has >= 2 values
     bool dangling_ref = false;         // reference to an absent (by name) or not-added (by pointer) cell
@@ -480,11 +481,38 @@ inline std::vector<Entry> make_entries() {
             bool cand = cs[k].candidate;
             bool red = k == 0 || k == 3 || k == 12;
             add_single(E, "poly.circle", cs[k].name, [g](Builder& b, Cell* a) { b.poly(a, g(), T(4, 4)); },
-                       [cand, red](Info& i) { i.circle_candidate = cand; i.many_vertices = true; i.reduced = red; });
+                       [cand, red](Info& i) { i.circle_candidate = cand; i.many_vertices = true; i.reduced = red; i.circle_family = true; });
         }
         add_single(E, "poly.circle", "regular64_r0.5 with repetition rect_2x2_pos and property mixed5",
                    [](Builder& b, Cell* a) { Polygon* p = b.poly(a, ngon(Vec2{3, -2}, 0.5, 0.5, 64), T(4, 4)); set_rep(p->repetition, "rect_2x2_pos"); add_props(p->properties, "mixed5"); },
-                   [](Info& i) { i.circle_candidate = true; i.many_vertices = true; i.has_repetition = true; i.multi_value_props = true; i.reduced = true; });
+                   [](Info& i) { i.circle_candidate = true; i.many_vertices = true; i.has_repetition = true; i.multi_value_props = true; i.reduced = true; i.circle_family = true; });
+    }
+    // ---- family poly.partial_disc: all vertices lie ON one circle, densely spaced (density = vertices a full circle
+    //      would have, at/above what circle detection needs at tolerance 1e-3 or 1e-2), but cover only part of it, so
+    //      that exactly one edge is long (the chord).  x every position of the long edge in the vertex list (implicit
+    //      closing edge, first edge, last explicit edge, interior edge) x both orientations.  Must never become a CIRCLE.
+    {
+        struct RD { double r; int density; Vec2 c; };
+        std::vector<RD> rds = {{0.5, 128, {3, -2}}, {10, 512, {0, 0}}, {10, 200, {-5, 7}}};
+        struct SH { const char* name; double keep; int drop; };  // keep: fraction of the circle kept; drop: or number of consecutive vertices removed
+        std::vector<SH> shs = {{"half_disc", 0.5, 0}, {"three_quarter_disc", 0.75, 0}, {"circle_minus_8_vertices", 0, 8}, {"circle_minus_2_vertices", 0, 2}};
+        for (size_t a = 0; a < rds.size(); a++)
+            for (size_t h = 0; h < shs.size(); h++) {
+                RD rd = rds[a];
+                SH sh = shs[h];
+                int n = sh.drop ? rd.density - sh.drop : (int)(rd.density * sh.keep) + 1;
+                std::vector<Vec2> base;
+                for (int k = 0; k < n; k++) base.push_back(Vec2{rd.c.x + rd.r * cos(2 * M_PI * k / rd.density + 0.1), rd.c.y + rd.r * sin(2 * M_PI * k / rd.density + 0.1)});
+                int starts[] = {0, 1, n / 2, n - 1};
+                for (int rev = 0; rev < 2; rev++)
+                    for (int st : starts) {
+                        std::vector<Vec2> pts = rotate_cycle(base, st, rev);
+                        bool red = a == 0 && h == 0 && rev == 0 && (st == 0 || st == n / 2);
+                        add_single(E, "poly.partial_disc", fmt("%s r=%g density=%d vertices=%d start=%d reversed=%d", sh.name, rd.r, rd.density, n, st, rev),
+                                   [pts](Builder& b, Cell* c) { b.poly(c, pts, T(4, 5)); },
+                                   [red](Info& i) { i.many_vertices = true; i.circle_family = true; i.reduced = red; });
+                    }
+            }
     }
     // ---- family rep.<element>: every repetition of the alphabet on every element kind
     {
